@@ -228,8 +228,8 @@ impl Family for C06Family {
 
     fn total(&self, tier: Tier) -> u64 {
         match tier {
-            Tier::Quick => 4_000,
-            Tier::Thorough => 400_000,
+            Tier::Quick => 20_000,
+            Tier::Thorough => 1_500_000,
         }
     }
 
